@@ -1870,7 +1870,9 @@ class Store:
 
         if self.subschema:
             self._apply_subschema()
-        for child in self.inner.values():
+        # (applying a sub-schema may wire children to nodes that do not
+        # exist yet, so iterate over a snapshot of the children)
+        for child in list(self.inner.values()):
             child._apply_subschemas()
 
     def _update_subschema(self, path, subschema):
